@@ -16,7 +16,8 @@
   Status (details in `Props/C20.lean`): schedule → exponent `b + ⟨a,s⟩` proved for all `N = 2^(k+1) ≥ 4` and all masks of
   the model's mod-switch (`blindrot_exponent_model`); on `RPoly` values `blindrot_evalSlot_phase`; look-up at every exponent
   `blindrot_lookup_all`; requested keys ⊆ generated `brk_keys_requested_subset`.  `gadgetProductR`/`automorphismR` (the key
-  switch inside the loop) and `scaleUp` (floats) are tied (`br_eval`, `br_core`, `testpoly`), without a general theorem.
+  switch inside the loop) are tied (`br_eval`, `br_core`), without a general theorem; `scaleUpBits` (the float pipeline of `InitTestPolynomial` in exact
+  arithmetic) is tied (`testpoly`) and carries `testpoly_limbs_consistent`, `testpoly_exact`.
 -/
 import Lattigo.Model.RGSW
 
@@ -225,12 +226,69 @@ def lookup (N : Nat) (F : List Int) (e : Int) : Int :=
   else if r ≤ N then -(F.getD (N - r) 0)
   else F.getD (2 * N - r) 0
 
-/-- `scaleUp(value, scale, Q)` of utils.go on IEEE doubles: `⌊|scale·value| + 0.5⌋ mod Q`, negated
-    modulo `Q` for a negative value (`Q − 0 = Q`, unreduced, when the magnitude rounds to zero). -/
-def scaleUp (value scale : Float) (Q : Nat) : Nat :=
-  let neg := value < 0
-  let x : Float := if neg then (-scale) * value else scale * value
-  let r := (x + 0.5).floor.toUInt64.toNat % Q
-  if neg then Q - r else r
+/-! ### `scaleUp` on IEEE doubles, in exact arithmetic
+
+A non-negative finite double is a pair `(m, e)` standing for `m·2^e`.  `InitTestPolynomial` only multiplies two doubles,
+adds `0.5` (a `big.Float` of precision 53, i.e. the IEEE addition) and truncates; these three operations are modelled
+exactly (round to nearest, ties to even, on the exact product / sum).  Results here are `≥ 1/2` or zero, far from the
+overflow threshold, so the exponent range plays no role. -/
+
+/-- strip trailing zero bits: `(m, e) ↦ (m / 2^t, e + t)`, `m / 2^t` odd (or `m = 0`) -/
+def stripZeros : Nat → Nat → Int → Nat × Int
+  | 0, m, e => (m, e)
+  | fuel + 1, m, e => if m ≠ 0 ∧ m % 2 = 0 then stripZeros fuel (m / 2) (e + 1) else (m, e)
+
+/-- magnitude of the double with bit pattern `b` (zero for NaN / infinities, which the harness never feeds), with the
+    trailing zeros of the significand stripped -/
+def decodeMag (b : Nat) : Nat × Int :=
+  let ex : Nat := (b / 2 ^ 52) % 2 ^ 11
+  let fr : Nat := b % 2 ^ 52
+  if ex = 2047 then (0, 0)
+  else if ex = 0 then stripZeros 64 fr (-1074)
+  else stripZeros 64 (2 ^ 52 + fr) ((ex : Int) - 1075)
+
+def signBit (b : Nat) : Bool := (b / 2 ^ 63) % 2 == 1
+
+/-- round `m·2^e` to 53 significant bits, nearest, ties to even -/
+def rnd53 (x : Nat × Int) : Nat × Int :=
+  let m := x.1
+  if m < 2 ^ 53 then x
+  else
+    let sh := Nat.log2 m + 1 - 53
+    let q := m / 2 ^ sh
+    let r := m % 2 ^ sh
+    let half := 2 ^ (sh - 1)
+    let q' := if r > half ∨ (r = half ∧ q % 2 = 1) then q + 1 else q
+    (q', x.2 + sh)
+
+/-- IEEE product of two magnitudes -/
+def fmul (x y : Nat × Int) : Nat × Int := rnd53 (x.1 * y.1, x.2 + y.2)
+
+/-- the exact sum `m·2^e + 1/2` on a common exponent -/
+def addHalfExact (x : Nat × Int) : Nat × Int :=
+  if x.2 ≥ 0 then (x.1 * 2 ^ (x.2 + 1).toNat + 1, -1) else (x.1 + 2 ^ (-1 - x.2).toNat, x.2)
+
+/-- `x + 0.5` at precision 53 -/
+def faddHalf (x : Nat × Int) : Nat × Int := rnd53 (addHalfExact x)
+
+/-- `big.Float.Int`: truncation -/
+def truncF (x : Nat × Int) : Nat := if x.2 ≥ 0 then x.1 * 2 ^ x.2.toNat else x.1 / 2 ^ (-x.2).toNat
+
+/-- `⌊m·2^e + 1/2⌋` in exact arithmetic -/
+def roundHalfUp (m : Nat) (e : Int) : Nat :=
+  if e ≥ 0 then m * 2 ^ e.toNat else (m + 2 ^ ((-e).toNat - 1)) / 2 ^ (-e).toNat
+
+/-- the integer `InitTestPolynomial` stores (before the reduction and the sign): `⌊fl(fl(scale·|value|) + 0.5)⌋` -/
+def scaleUpAbs (valueBits scaleBits : Nat) : Nat :=
+  truncF (faddHalf (fmul (decodeMag scaleBits) (decodeMag valueBits)))
+
+/-- `value < 0` (false for `−0.0`) -/
+def isNegBits (valueBits : Nat) : Bool := signBit valueBits && (decodeMag valueBits).1 != 0
+
+/-- `scaleUp(value, scale, Q)` of utils.go: every limb is the residue of THE SAME integer `scaleUpAbs`, negated modulo
+    `Q` for a negative value (`Q − 0 = Q`, unreduced, when the magnitude is a multiple of `Q`). -/
+def scaleUpBits (valueBits scaleBits Q : Nat) : Nat :=
+  let r := scaleUpAbs valueBits scaleBits % Q
+  if isNegBits valueBits then Q - r else r
 
 end Lattigo.RGSW.BlindRot
